@@ -195,6 +195,45 @@ def body_uniform(case):
     return labs
 
 
+@st.composite
+def small_requests_case(draw):
+    c = draw(uniform_case())
+    c.update(n=draw(st.sampled_from([1, 1, 2, 3])), calls=1500)
+    return c
+
+
+def body_small_requests(case):
+    """uniformity also holds for many small requests with different seeds taken together (n = 1, 2, 3: a sample is a random
+    point of the gamut, not a function of the request size): pooled over consecutive seeds and tested like one large request"""
+    dreye = _dreye()
+    P = np.asarray(case["P"], dtype=float)
+    n, calls, s0 = case["n"], case["calls"], case["seed"] % (2 ** 30)
+    with calling(f"sample_in_hull(n={n}) x {calls} seeds"):
+        X = np.vstack([np.asarray(dreye.sample_in_hull(P, n, seed=s0 + i)).reshape(n, P.shape[1]) for i in range(calls)])
+    N = X.shape[0]
+    mu, sd = P.mean(0), P.std(0) + 1e-300
+    Pn, Xn = (P - mu) / sd, (X - mu) / sd
+    labs = [f"d{P.shape[1]}", f"n{n}"]
+    for u, w in zip(np.asarray(case["dirs"], dtype=float), np.asarray(case["ws"], dtype=float)):
+        if np.linalg.norm(u) < 1e-3:
+            continue
+        u = u / np.linalg.norm(u)
+        c = float((w / w.sum()) @ Pn @ u)
+        vc, vt = clipped_volume(Pn, u, c)
+        if vc is None or vt <= 0:
+            continue
+        p = vc / vt
+        if not (0.05 <= p <= 0.95):
+            continue
+        k = int(np.sum(Xn @ u <= c))
+        z = (k - N * p) / math.sqrt(N * p * (1 - p))
+        check(abs(z) <= Z_MAX, "uniform:small-requests", f"{k} of {N} samples pooled from {calls} requests of n={n} fall in a region holding {p:.4f} of the volume (z = {z:.1f})",
+              observed=dict(k=k, p=p, z=z))
+        labs.append("nt:pooled-volume-fraction-tested")
+        break
+    return labs
+
+
 # ------------------------------------------------------------------------------------------------
 # estimator level, with and without l1
 
@@ -269,6 +308,7 @@ PROP = Prop(
                  "unbounded sources are sampled on [lb, lb+1] as documented in get_P_from_A"],
     subs=[
         Sub("membership_seed", membership_case(), body_membership, quick=600, thorough=30000, quick_shards=4, min_nt_share=0.2),
+        Sub("small_requests", small_requests_case(), body_small_requests, quick=24, thorough=600, quick_shards=8, min_nt_share=0.3),
         Sub("uniformity", uniform_case(), body_uniform, quick=64, thorough=2500, quick_shards=8, min_nt_share=0.3),
         Sub("estimator_l1", est_case(), body_est, quick=400, thorough=20000, quick_shards=4, min_nt_share=0.3),
         Sub("large_n", large_case(), body_membership, quick=4, thorough=64, quick_shards=4, thorough_shards=16, min_nt_share=0.0),
